@@ -43,7 +43,7 @@
   updateOne/Many (+ upsert), findOneAndReplace/Update, bulkWrite, expire — with the exact missing
   lemma for each.
 -/
-import Lungo.Proofs.SeqIndex
+import Lungo.Proofs.SeqUpdate
 import Lungo.Props.C15
 import Lungo.Props.C07
 namespace Lungo.C01
@@ -156,6 +156,32 @@ theorem refines_findOneAndDelete (s : Sys) (h : Handle) (q : Doc) (sort proj : O
     (hq : QueryOk sch (abs s.catalog) h q) : Refines sch s (.findOneAndDelete h q sort proj) oids :=
   SeqRef.refines_findOneAndDelete s h q sort proj oids ⟨hi, fun _ => hu⟩ ok hq
 
+/-- updateOne: the first match in natural order gets the update; matched / modified counts; `_id`
+    immutable; uniqueness of the resulting collection; upsert with the seed of the filter.
+    `UpdateOk`: the filter evaluates on every stored document, the results of `Apply` on stored
+    documents and the upserted document are Go values, and so are the generated ids. -/
+theorem refines_updateOne (s : Sys) (h : Handle) (q u : Doc) (upsert : Bool) (fs : List Doc) (oids : List V)
+    (hi : SysInv sch s) (hu : UniqueOkCat sch s.catalog) (ok : OkDB (abs s.catalog))
+    (hw : UpdateOk (acOf sch) (abs s.catalog) h q u upsert fs oids) :
+    Refines sch s (.updateOne h q u upsert fs) oids :=
+  SeqRef.refines_updateOne s h q u upsert fs oids ⟨hi, fun _ => hu⟩ ok hw
+
+/-- updateMany: all matches, each in its slot; a multi-update may permute unique keys (remove all,
+    then add all — the Spec's `admitAll` over the untouched documents) -/
+theorem refines_updateMany (s : Sys) (h : Handle) (q u : Doc) (upsert : Bool) (fs : List Doc) (oids : List V)
+    (hi : SysInv sch s) (hu : UniqueOkCat sch s.catalog) (ok : OkDB (abs s.catalog))
+    (hw : UpdateOk (acOf sch) (abs s.catalog) h q u upsert fs oids) :
+    Refines sch s (.updateMany h q u upsert fs) oids :=
+  SeqRef.refines_updateMany s h q u upsert fs oids ⟨hi, fun _ => hu⟩ ok hw
+
+/-- findOneAndUpdate: the head of the sorted matches; the document before / after; projection -/
+theorem refines_findOneAndUpdate (s : Sys) (h : Handle) (q u : Doc) (sort proj : Option Doc)
+    (upsert after : Bool) (fs : List Doc) (oids : List V)
+    (hi : SysInv sch s) (hu : UniqueOkCat sch s.catalog) (ok : OkDB (abs s.catalog))
+    (hw : UpdateOk (acOf sch) (abs s.catalog) h q u upsert fs oids) :
+    Refines sch s (.findOneAndUpdate h q u sort proj upsert after fs) oids :=
+  SeqRef.refines_findOneAndUpdate s h q u sort proj upsert after fs oids ⟨hi, fun _ => hu⟩ ok hw
+
 theorem refines_createCollection (s : Sys) (h : Handle) (oids : List V) :
     Refines sch s (.createCollection h) oids := SeqRef.refines_createCollection s h oids
 
@@ -185,6 +211,7 @@ theorem refines_dropIndexByKey (s : Sys) (h : Handle) (key : Doc) (oids : List V
 /-- the calls whose refinement is proved -/
 def covered : Call → Bool
   | .insertOne .. | .insertMany .. | .find .. | .findOne .. | .count .. | .estCount _ | .distinct ..
+  | .updateOne .. | .updateMany .. | .findOneAndUpdate ..
   | .deleteOne .. | .deleteMany .. | .findOneAndDelete .. | .createIndex .. | .dropIndex .. | .dropAllIndexes _
   | .dropIndexByKey .. | .listIndexes _ | .createCollection _ | .dropCollection _ | .dropDatabase _
   | .listCollections .. | .listDatabases _ => true
@@ -203,6 +230,9 @@ def WF (sch : SchemaEval) (db : SeqDB) (oids : List V) : Call → Prop
   | .deleteOne h q => QueryOk sch db h q
   | .deleteMany h q => QueryOk sch db h q
   | .findOneAndDelete h q _ _ => QueryOk sch db h q
+  | .updateOne h q u upsert fs => UpdateOk (acOf sch) db h q u upsert fs oids
+  | .updateMany h q u upsert fs => UpdateOk (acOf sch) db h q u upsert fs oids
+  | .findOneAndUpdate h q u _ _ upsert _ fs => UpdateOk (acOf sch) db h q u upsert fs oids
   | _ => True
 
 /-- **api_refines** (the proved subset): in a state satisfying the C15 invariant and C07, whose
@@ -233,11 +263,12 @@ theorem api_refines_partial {s : Sys} {c : Call} {oids : List V} (hi : SysInv sc
   | dropDatabase db => exact refines_dropDatabase s db oids hi
   | listCollections db q => exact refines_listCollections s db q oids
   | listDatabases q => exact refines_listDatabases s q oids
-  | updateOne _ _ _ _ _ => cases hc
-  | updateMany _ _ _ _ _ => cases hc
+  | updateOne h q u upsert fs => exact refines_updateOne s h q u upsert fs oids hi hu ok hw
+  | updateMany h q u upsert fs => exact refines_updateMany s h q u upsert fs oids hi hu ok hw
   | replaceOne _ _ _ _ => cases hc
   | findOneAndReplace _ _ _ _ _ _ _ => cases hc
-  | findOneAndUpdate _ _ _ _ _ _ _ _ => cases hc
+  | findOneAndUpdate h q u sort proj upsert after fs =>
+    exact refines_findOneAndUpdate s h q u sort proj upsert after fs oids hi hu ok hw
   | bulkWrite _ _ _ => cases hc
   | createIndex h name cfg => exact refines_createIndex s h name cfg oids hi ok
   | expire _ => cases hc
